@@ -18,11 +18,12 @@ Definition dcall_eqb (a b : dcall) : bool :=
   | DOpen, DOpen | DClose, DClose | DInWaiting, DInWaiting | DReset, DReset => true
   | DSetTmo x, DSetTmo y => optZ_eqb x y
   | DRecvFrom x, DRecvFrom y | DRecv x, DRecv y | DRead x, DRead y => N.eqb x y
+  | DSend x, DSend y => bytes_eqb x y
   | _, _ => false
   end.
 
-(* which class was driven; KUdpCur = QMI_UdpTransport as it is in the current tree (used only for
-   histories on which the property oracle has already flagged the known read_until_timeout defect) *)
+(* which class was driven; KUdpCur = QMI_UdpTransport as it was before the read_until_timeout fix (used only
+   for histories on which the property oracle has flagged exactly that defect, i.e. a regression) *)
 Inductive kcode := KTcp | KUdp | KUdpCur | KSerial.
 Definition kind_of (k : kcode) : kind :=
   match k with KTcp => Sock tcp_cfg | KUdp => Sock udp_cfg | KUdpCur => Sock udp_cfg_cur
